@@ -515,6 +515,54 @@ m("C10", "role-dispatch-swapped", IMPL,
   "	case ManagerPeerCreatePull:\n		return m.openPushRestartChannel(ctx, channel)\n	case ManagerPeerCreatePush:\n		return m.openPullRestartChannel(ctx, channel)",
   "C10.1", "created-pull channel restarted as a push")
 
+# ---------------- C11
+UT = "impl/utils.go"
+CS = "channels/channel_state.go"
+m("C11", "pause-initiator-sets-responder", FSM,
+  "			chst.InitiatorPaused = true\n",
+  "			chst.InitiatorPaused = true\n			chst.ResponderPaused = true\n",
+  "C11.1", "pausing the initiator also marks the responder paused")
+m("C11", "resume-responder-fromany", FSM,
+  "		FromMany(datatransfer.Ongoing, datatransfer.Requested, datatransfer.Queued, datatransfer.AwaitingAcceptance, datatransfer.TransferFinished).ToJustRecord().\n		From(datatransfer.Finalizing).To(datatransfer.Completing).",
+  "		FromAny().ToJustRecord().\n		From(datatransfer.Finalizing).To(datatransfer.Completing).",
+  "C11.1", "resume accepted in every status, including cleanup and terminal ones")
+m("C11", "pause-responder-nochange", FSM,
+  "		FromMany(datatransfer.Ongoing, datatransfer.Requested, datatransfer.Queued, datatransfer.AwaitingAcceptance, datatransfer.TransferFinished).ToJustRecord().\n		Action(func(chst *internal.ChannelState) error {\n			chst.ResponderPaused = true",
+  "		FromMany(datatransfer.Ongoing, datatransfer.Requested, datatransfer.Queued, datatransfer.AwaitingAcceptance, datatransfer.TransferFinished).ToNoChange().\n		Action(func(chst *internal.ChannelState) error {\n			chst.ResponderPaused = true",
+  "C11.1", "pause re-enters the status instead of only recording")
+m("C11", "both-paused-or", CS,
+  "	return c.InitiatorPaused() && c.ResponderPaused()",
+  "	return c.InitiatorPaused() || c.ResponderPaused()",
+  "C11.2", "both-paused is a disjunction")
+m("C11", "self-paused-wrong-role", CS,
+  "	if c.ic.SelfPeer == c.ic.Initiator {\n		return c.InitiatorPaused()\n	}\n	return c.ResponderPaused()",
+  "	if c.ic.SelfPeer == c.ic.Responder {\n		return c.InitiatorPaused()\n	}\n	return c.ResponderPaused()",
+  "C11.2", "self-paused reads the other party's flag")
+m("C11", "pause-other-wrong-role", UT,
+  "func (m *manager) pauseOther(chid datatransfer.ChannelID) error {\n	if chid.Responder == m.peerID {",
+  "func (m *manager) pauseOther(chid datatransfer.ChannelID) error {\n	if chid.Initiator == m.peerID {",
+  "C11.3", "counterparty's pause recorded on the local party's flag")
+m("C11", "resume-message-says-paused", UT,
+  "		return message.UpdateRequest(chid.ID, false)\n	}\n	return message.UpdateResponse(chid.ID, false)",
+  "		return message.UpdateRequest(chid.ID, false)\n	}\n	return message.UpdateResponse(chid.ID, true)",
+  "C11.3", "responder's resume announced as a pause")
+m("C11", "pause-not-announced", IMPL,
+  "	if err := m.dataTransferNetwork.SendMessage(ctx, chid.OtherParty(m.peerID), m.pauseMessage(chid)); err != nil {\n		err = fmt.Errorf(\"unable to send pause message: %w\", err)\n		_ = m.OnRequestDisconnected(chid, err)\n		return err\n	}\n\n	return m.pause(chid)",
+  "	return m.pause(chid)",
+  "C11.4", "local pause is not announced to the counterparty")
+m("C11", "stay-paused-ignored", EV,
+  "	if chst.SelfPaused() {\n		return datatransfer.ErrPause\n	}\n	return nil\n}\n\n// OnRequestCancelled",
+  "	if chst.BothPaused() {\n		return datatransfer.ErrPause\n	}\n	return nil\n}\n\n// OnRequestCancelled",
+  "C11.5", "transport resumes although the local side is still paused")
+m("C11", "update-request-stay-paused-inverted", RR,
+  "	if chst.SelfPaused() {\n		return nil, datatransfer.ErrPause\n	}\n	return nil, nil",
+  "	if !chst.SelfPaused() {\n		return nil, datatransfer.ErrPause\n	}\n	return nil, nil",
+  "C11.5", "pause signal inverted after the counterparty resumes")
+m("C11", "resume-records-before-transport", IMPL,
+  "	err := pausable.ResumeChannel(ctx, m.resumeMessage(chid), chid)\n	if err != nil {\n		log.Warnf(\"Error attempting to resume at transport level: %s\", err.Error())\n	}\n\n	return m.resume(chid)",
+  "	err := pausable.ResumeChannel(ctx, m.pauseMessage(chid), chid)\n	if err != nil {\n		log.Warnf(\"Error attempting to resume at transport level: %s\", err.Error())\n	}\n\n	return m.resume(chid)",
+  "C11.4", "resume announced with a pause message")
+
 by = collections.defaultdict(list)
 for x in M:
     p = x.pop("prop")
